@@ -709,6 +709,158 @@ theorem setValue_agree (npath : Text) (value : ValueArg) (d : Doc)
             · simp only [if_neg hc]
               rw [onLayer_set_agree hA _ true _ (scopeRest npath) v (collect_within hd) hp]
 
+set_option maxHeartbeats 1000000 in
+theorem removeValue_agree (npath : Text) (d : Doc)
+    (hd : DocWithin T d) (hp : PathOK T (scopeRest npath)) :
+    @removeValue I1 npath d = @removeValue I2 npath d := by
+  unfold removeValue
+  split
+  · rfl
+  · rfl
+  · cases hsp : splitScopeNpath npath with
+    | error e => rfl
+    | ok r =>
+      cases r with
+      | some dr =>
+        obtain ⟨depth, rest⟩ := dr
+        have hrest := splitScopeNpath_rest npath depth rest hsp
+        subst hrest
+        have e := onLayer_rm_agree hA (collectScopeLayers d) true ((collectScopeLayers d).length - depth)
+          (scopeRest npath) (collect_within hd) hp
+        simp only []
+        rw [e]
+      | none =>
+        have hp' : PathOK T npath := by rw [← splitScopeNpath_none npath hsp]; exact hp
+        simp only []
+        cases ht : resolveTarget d with
+        | error e => rfl
+        | ok ts =>
+          have hts : ts = d.target := resolveTarget_ok d ts ht
+          subst hts
+          simp only []
+          cases hf : formatNPath currentAnchor npath with
+          | error e => rfl
+          | ok segs =>
+            have hk := hp' segs hf
+            have hsT : ∀ s ∈ segs, s ∈ T := fun s h => (hk s h).1
+            cases segs with
+            | nil => rfl
+            | cons seg0 segRest =>
+              have hts := hd.target
+              have hvs := within_values hts
+              have h0 : seg0 ∈ T := hsT seg0 (by simp)
+              simp only []
+              rw [findAttrpathLeaf_agree hA d.target _ hts hsT, findAttrpathRoot_agree hA hvs h0,
+                findBinding_agree hA hvs h0, removeAttrpathValue_agree hA d.target _ hts hsT,
+                setDelItem_agree hA d.target seg0 hts h0]
+              split
+              · rfl
+              · split
+                · rfl
+                · split
+                  · rfl
+                  · have := resolveParentWalk_agree hA false _
+                      (fun k h => hk k (mem_of_mem_dropLast' _ _ h)) d.target hts
+                      (fun parent => match (seg0 :: segRest).getLast? with
+                        | none => (throw (.internal "IndexError") : EditM Unit)
+                        | some finalKey => @setDelItem I1 parent finalKey)
+                      (fun parent => match (seg0 :: segRest).getLast? with
+                        | none => (throw (.internal "IndexError") : EditM Unit)
+                        | some finalKey => @setDelItem I2 parent finalKey)
+                      (by
+                        intro parent hparent
+                        cases hlast : (seg0 :: segRest).getLast? with
+                        | none => rfl
+                        | some finalKey =>
+                          exact setDelItem_agree hA parent finalKey hparent (hsT _ (getLast?_mem hlast)))
+                    exact congrFun this d
+
 end
+
+/-! ### the code's comparison against comparison by spelling -/
+
+/-- no two tokens of `T` are different spellings of one name (decidable) -/
+def NoSpellingClash (T : List Text) : Prop := ∀ a ∈ T, ∀ b ∈ T, sameName a b = true → a = b
+
+instance (T : List Text) : Decidable (NoSpellingClash T) := by
+  unfold NoSpellingClash; infer_instance
+
+theorem agree_of_noSpellingClash {T : List Text} (h : NoSpellingClash T) :
+    Agree NameCmp.model NameCmp.spelled T := by
+  intro a ha b hb
+  show sameName a b = (a == b)
+  by_cases hab : a = b
+  · subst hab; simp [sameName_refl]
+  · have e : (a == b) = false := by simpa using hab
+    rw [e]
+    cases hs : sameName a b with
+    | false => rfl
+    | true => exact absurd (h a ha b hb hs) hab
+
+/-- the name tokens of a document: target set and scope layers -/
+def docToks (d : Doc) : List Text :=
+  toks d.target ++ (toksL d.scope ++ d.stack.flatMap (fun l => toksL l.scope))
+
+/-- a key and, where `AttributeSet.__getitem__` reads it as a dotted path, its segments -/
+def keyToks (k : Text) : List Text :=
+  k :: (match splitAttrpath k with | .ok segs => segs | .error _ => [])
+
+/-- the keys `set`/`rm` make of a path text -/
+def pathToks (npath : Text) : List Text :=
+  match formatNPath currentAnchor (scopeRest npath) with
+  | .ok segs => segs.flatMap keyToks
+  | .error _ => []
+
+/-- THE side condition under which the by-spelling theorems speak of the repaired code: among the
+    name tokens of the document and the keys of the path, no two are different spellings of one
+    Nix name. Decidable; true of every input on which the code before the repair of C12-spelling
+    did what Nix expects. -/
+def noSpellingClash (d : Doc) (npath : Text) : Prop := NoSpellingClash (docToks d ++ pathToks npath)
+
+instance (d : Doc) (npath : Text) : Decidable (noSpellingClash d npath) := by
+  unfold noSpellingClash; infer_instance
+
+theorem docWithin_docToks (d : Doc) (X : List Text) : DocWithin (docToks d ++ X) d := by
+  refine ⟨?_, ?_, ?_⟩
+  · intro t ht; simp [docToks, ht]
+  · intro t ht; simp [docToks, ht]
+  · intro l hl t ht
+    simp only [docToks, List.mem_append, List.mem_flatMap]
+    exact Or.inl (Or.inr (Or.inr ⟨l, hl, ht⟩))
+
+theorem keyOK_keyToks (k : Text) (Tk : List Text) (h : ∀ t ∈ keyToks k, t ∈ Tk) : KeyOK Tk k := by
+  refine ⟨h k (by simp [keyToks]), ?_⟩
+  intro segs hsp s hs
+  exact h s (by simp [keyToks, hsp, hs])
+
+theorem pathOK_pathToks (npath : Text) (X : List Text) : PathOK (X ++ pathToks npath) (scopeRest npath) := by
+  intro segs hf s hs
+  apply keyOK_keyToks
+  intro t ht
+  simp only [List.mem_append, pathToks, hf, List.mem_flatMap]
+  exact Or.inr ⟨s, hs, ht⟩
+
+/-- `set_value` of the repaired code is `set_value` with comparison by spelling wherever there is
+    no spelling clash. -/
+theorem setValue_model_eq_spelled (npath : Text) (value : ValueArg) (d : Doc)
+    (h : noSpellingClash d npath) :
+    @setValue NameCmp.model npath value d = @setValue NameCmp.spelled npath value d :=
+  setValue_agree (agree_of_noSpellingClash h) npath value d (docWithin_docToks d _) (pathOK_pathToks npath _)
+
+/-- the same for `remove_value` -/
+theorem removeValue_model_eq_spelled (npath : Text) (d : Doc) (h : noSpellingClash d npath) :
+    @removeValue NameCmp.model npath d = @removeValue NameCmp.spelled npath d :=
+  removeValue_agree (agree_of_noSpellingClash h) npath d (docWithin_docToks d _) (pathOK_pathToks npath _)
+
+/-- the mapping API on one set object -/
+theorem mapping_model_eq_spelled (s : Node) (key : Text) (v : Node)
+    (h : NoSpellingClash (toks s ++ keyToks key)) :
+    @setGetItem NameCmp.model s key = @setGetItem NameCmp.spelled s key ∧
+    @setSetItem NameCmp.model s key v = @setSetItem NameCmp.spelled s key v ∧
+    @setDelItem NameCmp.model s key = @setDelItem NameCmp.spelled s key := by
+  have hA := agree_of_noSpellingClash h
+  have hs : Within (toks s ++ keyToks key) s := fun t ht => by simp [ht]
+  have hk : KeyOK (toks s ++ keyToks key) key := keyOK_keyToks key _ (fun t ht => by simp [ht])
+  exact ⟨setGetItem_agree hA s key hs hk, setSetItem_agree hA s key v hs hk.1, setDelItem_agree hA s key hs hk.1⟩
 
 end Nima
